@@ -33,7 +33,8 @@ def is_fits(methodname, filepath):
     exten = {'read': all_exten, 'write': all_exten[0:3]}
 
     if methodname == 'write':
-        return filepath.lower().endswith(exten[methodname])
+        # the file name may be given as a path-like object
+        return str(filepath).lower().endswith(exten[methodname])
 
     elif methodname == 'read':
         if (isinstance(filepath, str)
